@@ -606,6 +606,7 @@ theorem reachSet_sound (m : Mol) (k : Key) : ∀ (fuel : Nat) (seen : List Key),
   | fuel + 1, seen, hs => by
     apply reachSet_sound m k fuel
     intro x hx
+    rw [List.mem_eraseDups] at hx
     rcases List.mem_append.mp hx with h | h
     · exact hs x h
     · obtain ⟨y, hy, hxy⟩ := List.mem_flatMap.mp h
